@@ -204,6 +204,8 @@ OBLIGATIONS['C11'] = [
     ('encrypt::lemma_recipients_array', 'lemma'), ('vstubs::check_*to_cbor*', 'body'),
     ('key::lemma_key_roundtrip', 'lemma'), ('key::lemma_enc_labels', 'lemma'), ('key::lemma_params_of_enc', 'lemma'),
     ('vstructs::lemma_structure_bytes', 'lemma'),
+    ('vroundtrip::lemma_header_reencoding_accepted', 'lemma'), ('vroundtrip::lemma_header_reencoding_same', 'lemma'), ('vroundtrip::lemma_encoded_pair', 'lemma'),
+    ('vroundtrip::lemma_encoded_labels_distinct', 'lemma'), ('vroundtrip::lemma_rest_of_encoded', 'lemma'), ('vroundtrip::lemma_hdr_cv_same', 'lemma'),
 ]
 # C07: decode contracts (iff + result relations) and encode contracts (functional) of every type, the lemmas that every decoded
 # value encodes successfully, the CoseKey decode-encode-decode lemma, and protected bytes kept (C02)
@@ -216,6 +218,8 @@ OBLIGATIONS['C07'] = [
     ('vlemmas::lemma_decoded_protected_is_encodable', 'lemma'),
     ('key::lemma_key_roundtrip', 'lemma'), ('key::lemma_enc_labels', 'lemma'), ('key::lemma_params_of_enc', 'lemma'),
     ('vstubs::check_*', 'body'),
+    # fixed point for header maps and COSE_Sign1 without counter signatures
+    ('vroundtrip::*', 'lemma'),
 ]
 OBLIGATIONS['C08'] = [
     ('header::Header::from_cbor_value_nested', 'body'), ('header::Header::from_cbor_value', 'body'),
